@@ -8,7 +8,7 @@ from mc.pool import Pool, QueueSource
 
 
 def two_stage(stage1: Tuple[str, str], jobs1: List[Any], stage2: Tuple[str, str],
-              make_job2: Callable[[Any, Any], Optional[Any]], *, n1: int = 6, n2: int = 10,
+              make_job2: Callable[[Any, Any], Optional[Any]], *, n1: int = 5, n2: int = 11,
               init1=("mc.runners", "warm_export"), init2=("mc.runners", "warm_oracle"),
               timeout1: float = 300.0, timeout2: float = 300.0,
               on_stage1: Optional[Callable[[Any, Any], None]] = None,
